@@ -14,7 +14,7 @@ ASSUMPTIONS = [
 ]
 SUBS = [
     dict(name="parse", quick=dict(cases=60000, shards=11), thorough=dict(cases=600000, shards=9)),
-    dict(name="fresh", quick=dict(cases=4000, shards=3), thorough=dict(cases=60000, shards=3), fork=True),
+    dict(name="fresh", quick=dict(cases=4000, shards=3), thorough=dict(cases=40000, shards=3), fork=True),
     dict(name="enum", quick=dict(cases=12, shards=2), thorough=dict(cases=24, shards=4)),
 ]
 
